@@ -820,9 +820,97 @@ fn run_program(p: &Program, out: &mut JobOut) {
 
 // ------------------------------------------------------------------------------------------
 
+/// An axis lives in a caller-owned buffer; interpolators are built over a *view* of it. Between two
+/// builds the caller rewrites the interior knots (same address, length, first and last knot). The
+/// second interpolator must answer like one built over an owned copy, on the thread that saw the
+/// first axis just as on a fresh thread. Every pair (first axis, second axis) of the alphabet,
+/// Linear, CubicSpline and Bilinear.
+fn storage_reuse(n: usize, out: &mut JobOut) {
+    use ndarray::ArrayView1;
+    // all axes on [0, n-1] with n knots whose interior knots sit at i + d, d in {-1/4, 0, +1/4}
+    let mut axes: Vec<Vec<f64>> = vec![vec![0.0]];
+    for i in 1..n - 1 {
+        axes = axes.iter().flat_map(|a| [-0.25, 0.0, 0.25].iter().map(move |d| { let mut v = a.clone(); v.push(i as f64 + d); v })).collect();
+    }
+    for a in axes.iter_mut() {
+        a.push((n - 1) as f64);
+    }
+    if axes.len() > 27 {
+        axes.truncate(27);
+    }
+    // interior knots crowded at one end: the position computed from the end points is off by whole cells
+    let last = (n - 1) as f64;
+    axes.push((0..n).map(|i| if i == n - 1 { last } else { i as f64 * 0.125 }).collect());
+    axes.push((0..n).map(|i| if i == 0 { 0.0 } else { last - (n - 1 - i) as f64 * 0.125 }).collect());
+    axes.push((0..n).map(|i| if i == 0 || i == n - 1 { i as f64 } else if i % 2 == 1 { i as f64 - 0.875 } else { i as f64 - 0.125 }).collect());
+    // the evenly spaced axis first: it is the one whose remembered properties would be trusted
+    let uni: Vec<f64> = (0..n).map(|i| i as f64).collect();
+    axes.retain(|a| *a != uni);
+    axes.insert(0, uni);
+    assert!(axes.iter().all(|a| a.windows(2).all(|w| w[0] < w[1])));
+    let data = Array2::from_shape_fn((n, 2), |(i, j)| ((i * 2 + j) as f64 * 0.37).sin() * 3.0 + 0.4 * i as f64);
+    let z = Array3::from_shape_fn((n, 3, 1), |(i, j, _)| ((i * 3 + j) as f64 * 0.37).sin() * 3.0);
+    let yax = [0.0, 1.0, 2.5];
+    let queries = |x: &[f64]| -> Vec<f64> {
+        let mut q = x.to_vec();
+        for w in x.windows(2) {
+            q.push(w[0] + 0.3 * (w[1] - w[0]));
+            q.push(w[0] + 0.9 * (w[1] - w[0]));
+        }
+        q
+    };
+    // answers of an interpolator over a view of `buf` (three strategies, all queries)
+    let answers = |buf: &Vec<f64>| -> Vec<u64> {
+        let x = ArrayView1::from(&buf[..]);
+        let q = queries(buf);
+        let mut v = vec![];
+        let lin = ndarray_interp::interp1d::Interp1DBuilder::new(data.view()).x(x).strategy(Linear::new()).build().expect("valid");
+        let spl = ndarray_interp::interp1d::Interp1DBuilder::new(data.view()).x(x).strategy(ndarray_interp::interp1d::cubic_spline::CubicSpline::new()).build().expect("valid");
+        let bil = ndarray_interp::interp2d::Interp2DBuilder::new(z.view()).x(x).y(ArrayView1::from(&yax[..])).build().expect("valid");
+        for &qv in &q {
+            v.extend(lin.interp(qv).expect("in range").iter().map(|t| t.to_bits()));
+            v.extend(spl.interp(qv).expect("in range").iter().map(|t| t.to_bits()));
+            v.extend(bil.interp(qv, 1.75).expect("in range").iter().map(|t| t.to_bits()));
+        }
+        v
+    };
+    // reference answers of every axis: from an owned buffer on a thread that has seen nothing else
+    let reference: Vec<Vec<u64>> = axes.iter().map(|a| std::thread::scope(|s| s.spawn(|| answers(&a.clone())).join().expect("reference thread"))).collect();
+    out.states += axes.len() as u64;
+    let mut buf = axes[0].clone();
+    for (ia, a) in axes.iter().enumerate() {
+        for (ib, b) in axes.iter().enumerate() {
+            if ia == ib {
+                continue;
+            }
+            buf.copy_from_slice(a);
+            let first = catch(|| answers(&buf));
+            buf.copy_from_slice(b);
+            let second = catch(|| answers(&buf));
+            out.evals += 2;
+            out.nontrivial += 1;
+            out.transitions += 2;
+            let ok = first.as_ref().ok() == Some(&reference[ia]) && second.as_ref().ok() == Some(&reference[ib]);
+            out.outcome(if ok { "storage-reuse:same" } else { "storage-reuse:differs" });
+            if !ok {
+                out.violate(
+                    format!("storage-reuse:n{n}:{ia}->{ib}"),
+                    format!("interpolators over a view of one buffer: after the buffer held {a:?} and then {b:?}, the answers differ from those of interpolators built from owned copies on a fresh thread (first axis ok: {}, second axis ok: {})", first.as_ref().ok() == Some(&reference[ia]), second.as_ref().ok() == Some(&reference[ib])),
+                    Json::obj(vec![("first_axis", Json::f64s(a)), ("second_axis", Json::f64s(b))]),
+                );
+                return;
+            }
+        }
+    }
+    out.sample = Some(Json::obj(vec![("n", Json::Int(n as i128)), ("axes", Json::Int(axes.len() as i128))]));
+}
+
 #[derive(Clone, Debug)]
 enum Job {
     SendSync,
+    /// histories over *several* interpolators that share storage: an axis buffer is overwritten
+    /// (same address, length and end points, other interior knots) between two builds
+    StorageReuse { n: usize },
     Hist { kind: usize, first: usize, depth: usize },
     Sched(Program),
 }
@@ -832,6 +920,9 @@ fn body(ctx: &Ctx) -> (Summary, Meta) {
     assert!(verif_hooks::install_sched_point(sched_hook), "hook already installed");
     let depth = if quick { 3 } else { 4 };
     let mut jobs = vec![Job::SendSync];
+    for n in 3..=7 {
+        jobs.push(Job::StorageReuse { n });
+    }
     for kind in 0..KINDS.len() {
         for first in 0..NOPS {
             jobs.push(Job::Hist { kind, first, depth });
@@ -885,6 +976,7 @@ fn body(ctx: &Ctx) -> (Summary, Meta) {
     let njobs = jobs.len();
     let key = |j: &Job| match j {
         Job::SendSync => "send-sync".to_string(),
+        Job::StorageReuse { n } => format!("storage-reuse:n{n}"),
         Job::Hist { kind, first, .. } => format!("hist:{}:first={first}", KINDS[*kind]),
         Job::Sched(p) => p.key(),
     };
@@ -902,6 +994,7 @@ fn body(ctx: &Ctx) -> (Summary, Meta) {
                 }
                 out.sample = Some(Json::str("Send/Sync probe of 37 instantiations"));
             }
+            Job::StorageReuse { n } => storage_reuse(*n, &mut out),
             Job::Hist { kind, first, depth } => {
                 explore_histories(*kind, *first, *depth, &mut out);
                 if out.sample.is_none() {
